@@ -29,23 +29,36 @@ prop(id='C13',
 
 prop(id='C04',
      title='jumps only onto real JUMPDESTs',
-     coq=['Props/C04.v', 'Corr/C04.v'],
+     coq=['Proofs/EvmMiscProofs.v', 'Props/C04.v', 'Corr/C04.v'],
      props_files=['Props/C04.v'],
      drivers=[{'name': 'c04', 'module': 'C04', 'profiles': DBG}],
      technique='Coq proof: the jump table built by analyze on the 33-byte-padded code (Model/Jump.v, skip-counter recursion) marks exactly '
                'the JUMPDEST bytes that are instruction starts (independent inductive InstrStart, Spec/JumpSpec.v); vm_compute correspondence '
-               'of the whole table and of real JUMP/JUMPI executions with revm_interpreter',
+               'of the whole table and of real JUMP/JUMPI executions with revm_interpreter; '
+               'composition (Proofs/EvmMiscProofs.v): the same statement on the reference interpreter of C01 (Model/Step.v executes JUMP/JUMPI through Model/Jump.v): '
+               'per-instruction theorem for opcodes 0x56/0x57 of step, and "the program counter is an instruction start" as an invariant along exec - by induction over an '
+               'independent inductive description (reach) of the states a run executes from, nested call/create frames included',
      level_text='Machine-checked theorems (Coq 8.16.1) for every byte string (length + 33 <= 2^64) and every 256-bit target: jump_inner accepts t '
                 'iff t < len, code[t] = 0x5b and t is an instruction start (equivalently: not inside the immediate data of a preceding PUSH); '
                 'JUMP continues at t or ends in InvalidJump, JUMPI with condition 0 falls through without validating; targets in the padding / beyond are '
                 'invalid although the bit vector has the padded length; truncated trailing PUSH data cannot create a destination; re-analysis is the '
                 'identity, lazy = eager. The model is tied to the code by comparing the whole jump table (every pc up to len+40 and large pcs) and '
-                'executed JUMP/JUMPI outcomes on generated code; the verdict-2 oracle is an independent instruction-start computation proved equal to the spec.',
+                'executed JUMP/JUMPI outcomes on generated code; the verdict-2 oracle is an independent instruction-start computation proved equal to the spec. '
+                'On the reference interpreter (tied to the Rust code by the C01 correspondence), for every world, hardfork, state and frame whose code is a byte string: '
+                'JUMP continues exactly onto a ValidDest of the frame\'s own code with the target popped, ends with InvalidJump exactly for a target that is not one, and otherwise only with '
+                'StackUnderflow / OutOfGas / NotActivated - the transaction state untouched in every case (C04_interpreter_jump); JUMPI with condition 0 falls through without validating, a taken '
+                'JUMPI is a JUMP (C04_interpreter_jumpi); every instruction of any opcode moves the program counter from an instruction start of the padded code to an instruction start '
+                '(next instruction, behind PUSH data, or accepted destination; C04_interpreter_step_keeps_instruction_start), hence along a whole run - every nested call and create frame included, '
+                'each on its own code - every instruction is executed from an instruction start; a position inside the code is not PUSH data, a position beyond it is padding = STOP '
+                '(C04_interpreter_pc_is_instruction_start, C04_interpreter_pc_not_in_push_data).',
      level_note='Trusted: Coq kernel + vm_compute; Rust harness; the model-code tie is differential (sampled), the theorems are universal over the model. '
                 'No axioms (closed under the global context).',
      modelled=['the pointer loop of analyze (unsafe pointer arithmetic, BitVec::set_unchecked) is modelled as structural recursion with a skip counter; '
                'memory safety of that loop is not claimed here (C25)',
-               'gas charging and stack pops of JUMP/JUMPI are outside this model (C12/C13); only the result and the new program counter are'],
+               'gas charging and stack pops of JUMP/JUMPI are outside the component model (C12/C13); they are part of the interpreter theorems'],
+     partial='interpreter theorems: legacy bytecode only (no EOF: RJUMP* are C26); that a frame\'s code is a byte string of length + 33 <= 2^64 (code_ok) is a hypothesis per frame - true of every Bytes value in Rust, '
+             'not derived from a well-formedness invariant of the code table / memory of the Gallina world; the run-level statement is over the states a run executes from (reach), '
+             'which includes runs that later run out of fuel or hit a model panic point',
      design_ref='5 (C04)')
 
 prop(id='C27',
@@ -350,30 +363,43 @@ prop(id='C34',
 
 prop(id='C12',
      title='interpreter stack',
-     coq=['Props/C12.v', 'Corr/C12.v'],
+     coq=['Proofs/EvmMiscProofs.v', 'Proofs/EvmMiscStack.v', 'Props/C12.v', 'Corr/C12.v'],
      props_files=['Props/C12.v'],
      drivers=[{'name': 'c12', 'module': 'C12', 'profiles': DBG}],
      technique='Coq proof: refinement of the Vec-level model (Model/Stack.v: index arithmetic, guards, 64-bit limbs of push_slice) to an abstract '
                'LIFO (Spec/StackSpec.v), length invariant by induction over operation lists + vm_compute correspondence with '
-               'revm_interpreter::Stack and with Interpreter::run on stack-opcode programs',
+               'revm_interpreter::Stack and with Interpreter::run on stack-opcode programs; '
+               'composition (Proofs/EvmMiscStack.v): on the reference interpreter of C01 (Model/Step.v keeps the stack as a top-first list and performs pop!/push! itself, so the statements are '
+               'proved directly on it, not through Model/Stack.v): exhaustive case analysis of step over every opcode against the (inputs, outputs) table reflected from the compiled revm '
+               '(Gen/OpInfo.v), then the bound as an invariant along exec (induction over reach, Proofs/EvmMiscProofs.v)',
      level_text='Machine-checked theorems (Coq 8.16.1): length <= 1024 for all operation lists; every method (push, pop, peek, set, dup, swap, '
                 'exchange, push_slice, push_b256, unsafe pop/top variants) equals the abstract LIFO operation including the exact error value, for all '
                 'stacks within the limit and all u64/u256 arguments, and whole histories refine; a non-successful call leaves the stack unchanged; '
                 'dup/exchange raw-pointer indices lie inside the vector and do not overlap; push_slice writes exactly 4*ceil(n/32) limbs and equals, '
                 'for every byte list, "append the big-endian values of the 32-byte chunks" with an exact overflow check; a short last chunk is '
                 'right-aligned (DESIGN 6.1). The model is tied to the code by running the real Stack / Interpreter on generated histories and '
-                'evaluating model + abstract-LIFO oracle inside Coq on the same histories.',
+                'evaluating model + abstract-LIFO oracle inside Coq on the same histories. '
+                'On the reference interpreter (tied to the Rust code by the C01 correspondence), for every opcode, hardfork, world and state with at most 1024 words: an instruction that lets the frame '
+                'continue has taken exactly the inputs and left exactly the outputs of the reflected opcode table (the inputs were there) and the result has at most 1024 words; a CALL-family / CREATE '
+                'instruction takes its inputs and the resumed caller has its one output; StackUnderflow is reported only when fewer than inputs words are there and an instruction whose inputs exceed the '
+                'stack never continues; StackOverflow only when the result would exceed 1024; in both cases the output is empty and the transaction state (journaled state, checkpoints, code table, logs) is '
+                'exactly what it was (C12_interpreter_instruction_stack_effect, C12_interpreter_short_stack_ends_frame, C12_interpreter_call_stack_effect); along a whole run, in the frame and in every '
+                'nested frame, no state holds more than 1024 words (C12_interpreter_stack_bounded). One exception stated in the theorem because it is what revm does: SELFBALANCE asks the host before it '
+                'pushes, so on a full stack the frame ends with StackOverflow after the executing account has been (re-)loaded.',
      level_note='Trusted: Coq kernel + vm_compute; Rust harness; the model-code tie is differential (sampled), the theorems are universal over the model. '
                 'No axioms (closed under the global context).',
      modelled=['Vec<U256> as a list (capacity/uninitialised tail not represented: dup and push_slice append)',
                'assume!(n > 0)/assume!(m > 0) and the usize overflow of n + m as a Panic outcome (release: undefined behaviour, never exercised)',
                'U256 as 4 little-endian u64 limbs in push_slice'],
-     partial='memory safety of the unsafe copies is argued only through the index/limb-count lemmas (no Rust memory model)',
+     partial='memory safety of the unsafe copies is argued only through the index/limb-count lemmas (no Rust memory model); '
+             'interpreter theorems: word counts only - which words an instruction leaves (LIFO order, DUP/SWAP positions, values) is the component refinement above plus C03, not restated on the interpreter; '
+             'when a stack error is reported after earlier pops of the same instruction (CALL with 3..6 words) the halted frame\'s own stack value is not claimed unchanged (it is dead); '
+             'legacy bytecode only (EOF stack validation is C26)',
      design_ref='5 (C12), 6.1')
 
 prop(id='C11',
      title='per-frame memory',
-     coq=['Props/C11.v', 'Corr/C11.v'],
+     coq=['Proofs/EvmMiscProofs.v', 'Proofs/EvmMiscStack.v', 'Proofs/EvmMiscMemory.v', 'Props/C11.v', 'Corr/C11.v'],
      props_files=['Props/C11.v'],
      drivers=[{'name': 'c11', 'module': 'C11', 'profiles': DBG},
               {'name': 'c11p', 'module': 'C11', 'profiles': DBG_ONLY}],
@@ -381,7 +407,9 @@ prop(id='C11',
                'an opcode layer (Model/MemoryOps.v: MLOAD/MSTORE/MSTORE8/MSIZE/MCOPY/CALLDATACOPY/CODECOPY/RETURNDATACOPY/KECCAK256/LOGn/RETURN/REVERT/CALL '
                'through gas!/as_usize_or_fail!/resize_memory!) with a universal growth/alignment/charge theorem + '
                'vm_compute correspondence in two streams: (c11) the SharedMemory / resize_memory / insert_call_outcome API driven directly, '
-               '(c11p) real programs and nested CALLs on a real Evm observed instruction by instruction through an Inspector',
+               '(c11p) real programs and nested CALLs on a real Evm observed instruction by instruction through an Inspector; '
+               'composition (Proofs/EvmMiscMemory.v): on the reference interpreter of C01 (Model/Step.v executes the memory instructions through Model/Memory.v): exhaustive case analysis of step over every '
+               'opcode for alignment / growth, the window theorem applied to Interpreter::insert_call_outcome of Model/Evm.v, invariants along exec by induction over reach / frame_reach',
      level_text='Machine-checked theorems (Coq 8.16.1) for all trees of frame histories (own operations and complete child frames): '
                 'last_checkpoint = last checkpoints <= |buffer|; a frame changes no checkpoint and no byte below its checkpoint; a child starts empty; '
                 'after any complete child frame the parent buffer, size and checkpoints are exactly as before; growth exposes only zeros whatever a freed '
@@ -395,7 +423,13 @@ prop(id='C11',
                 'CALLs to depth 3, precompiles, failing / reverting / out-of-gas children, return windows shorter/equal/longer than the return data) as '
                 'real transactions and replaying every observed memory instruction (operands from the real stack, gas before/after, MSIZE, memory digest, '
                 'MLOAD/MSIZE values, LOG data, call inputs/outputs) on the model and on an independent per-frame oracle (unbounded-integer quadratic formula, '
-                'separate zero-initialised byte list per frame, window semantics) inside Coq.',
+                'separate zero-initialised byte list per frame, window semantics) inside Coq. '
+                'On the reference interpreter (tied to the Rust code by the C01 correspondence): every frame - the first one and every child of a call or create - starts on empty memory; every instruction of any opcode, '
+                'whatever its outcome, leaves the frame memory word-aligned and not smaller (C11_interpreter_instruction_keeps_memory_aligned); the size changes only through resize_memory!, which appends zeros '
+                '(C11_interpreter_growth_is_zero_filled); along one frame, across its own instructions and complete calls / creates whatever the children did at any depth, the memory never shrinks and stays aligned '
+                '(C11_interpreter_frame_memory_only_grows), and every state of every frame of a run is aligned (C11_interpreter_memory_invariant); when the caller resumes after a call its memory has the same size and is '
+                'old prefix ++ return data[..min(ret_len, |return data|)] ++ old suffix with the copy at ret_off - untouched when that is empty or the child neither succeeded nor reverted - and byte by byte every position '
+                'outside the window is what it was before the call (C11_interpreter_call_changes_only_the_return_window, C11_interpreter_bytes_outside_window_unchanged); a create leaves the caller\'s memory alone.',
      level_note='Trusted: Coq kernel + vm_compute; Rust harness; the model-code tie is differential (sampled), the theorems are universal over the model. '
                 'No axioms (closed under the global context).',
      modelled=['Vec<u8> as live list + stale tail (set_len / Vec::resize semantics written by hand)',
@@ -407,7 +441,11 @@ prop(id='C11',
      partial='the frame theorem speaks about complete child frames (well-bracketed histories), which is how the EVM drives SharedMemory; in the program '
              'stream the KECCAK256 hash value itself is not compared (only its gas, expansion and the memory it leaves), CALLCODE/DELEGATECALL/STATICCALL/'
              'CREATE/CREATE2/EXTCODECOPY and EOF data/return opcodes are not driven (they share resize_memory!/call_helpers::resize_memory with the '
-             'driven ones), memories above 2048 bytes are compared through three 64-byte windows rather than byte for byte, the memory_limit feature is off',
+             'driven ones), memories above 2048 bytes are compared through three 64-byte windows rather than byte for byte, the memory_limit feature is off; '
+             'interpreter theorems: in Model/Evm.v every frame owns its memory value (the child starts on mem_new, the caller\'s state is kept aside), so that a child cannot touch the parent\'s memory holds by '
+             'construction of the interpreter - the shared-buffer content of that claim is the component theorem (frame histories) and the c11p runs, the interpreter contributes alignment / growth per instruction and '
+             'the return-data window; "zero-initialised" is stated as: frames start empty and growth appends zeros (no per-byte "never written => 0" invariant); the expansion charge along the interpreter is '
+             'C13/C14\'s composition, not restated here; legacy bytecode only',
      design_ref='5 (C11)')
 
 prop(id='C33',
@@ -789,20 +827,31 @@ prop(id='C30',
 
 prop(id='C07',
      title='call depth',
-     coq=['Props/C07.v', 'Corr/C07.v'],
+     coq=['Proofs/EvmFrameProofs.v', 'Proofs/EvmGasProofs.v', 'Proofs/EvmMiscProofs.v', 'Props/C07.v', 'Corr/C07.v'],
      props_files=['Props/C07.v'],
      drivers=[{'name': 'c07', 'module': 'C07', 'profiles': DBG_ONLY}],
      allow_axioms=['functional_extensionality_dep'],
-     technique='Coq proof: frame functions are journal histories, depth = open frames by the history invariant of C06, for all event sequences (Model/Frames.v) + vm_compute correspondence with revm::EvmContext driven directly',
+     technique='Coq proof: frame functions are journal histories, depth = open frames by the history invariant of C06, for all event sequences (Model/Frames.v) + vm_compute correspondence with revm::EvmContext driven directly; '
+               'composition (Proofs/EvmFrameProofs.v, Proofs/EvmMiscProofs.v): on the reference interpreter of C01 (Model/Evm.v: do_call / do_create / exec call the frame functions of Model/Frames.v) - induction on fuel over exec '
+               'for "a frame restores depth and open checkpoints", induction over an independent description (reach) of the states a run executes from for the bound, direct computation of the depth check',
      level_text='Machine-checked theorems over ALL sequences of frame events (calls with every early-exit path, creates with every rejection path, their returns with every outcome, arbitrary host '
                 'operations in between) from a transaction-start state: journal depth = number of open frames; a call/create that yields no frame leaves the depth unchanged, one that yields a frame adds one, '
                 'every return removes one; the depth check fires iff depth > 1024. Tied to the code by driving the real EvmContext::make_call_frame / call_return / make_create_frame / create_return '
-                'on generated event sequences (including 1030-deep nestings after random sibling calls) and comparing result kinds, depth after every event and the final journaled state inside Coq.',
+                'on generated event sequences (including 1030-deep nestings after random sibling calls) and comparing result kinds, depth after every event and the final journaled state inside Coq. '
+                'On the reference interpreter (run_the_loop as recursion over frames; tied to the Rust code by the C01 correspondence), for every world, program, fuel and state: the transaction starts at depth 0 = no open frame and the first frame is still started there after load_access_list / deduct_caller / EIP-7702 authorisations (C07_interpreter_first_frame_starts_at_depth_0); '
+                'during a run - in the frame and in every frame nested below it - the journal depth stays the number of open frame checkpoints, is never below the depth of the running frame and never exceeds 1024 + 1 '
+                '(C07_interpreter_depth_bounded); a child frame is entered only from depth <= 1024 and lies exactly one level deeper (C07_interpreter_child_is_one_level_deeper); a CALL-family or CREATE request issued at depth > 1024 '
+                'is answered CallTooDeep with all the gas it was given, no frame is opened, the child interpreter is not run and the whole transaction state is unchanged (C07_interpreter_call_too_deep, C07_interpreter_create_too_deep), '
+                'the caller gets 0 pushed, its gas back and empty return data (C07_interpreter_caller_after_too_deep); at depth <= 1024 the depth check does not fire; every frame, every call and every create that completes - ok, revert, halt, '
+                'precompile failure, value-transfer failure, collision, early rejection, with anything nested inside - returns with the depth and the stack of open checkpoints it started from '
+                '(C07_interpreter_frame_restores_depth / _call_ / _create_).',
      level_note='Trusted: Coq kernel + vm_compute; functional_extensionality_dep (through the C06 development); Rust harness; differential tie. Environment facts that are not journaled state '
                 '(which address is a precompile and whether it succeeds, whether code is EOF, has_storage, init-code prefix) are inputs of the model. Hypothesis: the contract of the journaled-state calls '
                 '(econtract), shown satisfiable by an Example.',
      partial='make_eofcreate_frame is covered by the model of make_create_frame (same journaled-state calls after the depth check; its Tx kind and eofcreate_return are not driven by the harness); '
-             'the interpreter loop that issues the events (run_the_loop) is covered by C29/C01 style runs, not by this model',
+             'the interpreter loop that issues the events (run_the_loop) is the reference interpreter of C01 in the composition theorems (legacy bytecode only: EXTCALL/EXTDELEGATECALL/EXTSTATICCALL/EOFCREATE are covered by the event model only); '
+             'the composition theorems do not need the C06 contract (they use depth arithmetic of the frame functions only) and are conditional on the run producing a result where they speak about a completed frame (XDone: out-of-fuel and '
+             'model panic points are outside)',
      modelled=['see C06 (Model/Host.v); Model/Frames.v mirrors evm_context.rs / inner_evm_context.rs frame functions'],
      design_ref='5 (C07)')
 
